@@ -414,6 +414,9 @@ func (ega *EnhancedGroupAggregator) AddPostAggregationExpression(outputField, or
 
 	// Add individual aggregation fields to the base aggregator (only if not already exists)
 	for _, field := range requiredFields {
+		// the evaluator registered below is a closure over field: bind it per iteration
+		// (the module's go directive predates per-iteration loop variables)
+		field := field
 
 		// For parameterized functions, always recreate the aggregator with correct parameters
 		// even if it already exists (it was created with default parameters)
